@@ -7,6 +7,7 @@ from typing import Dict, List, Optional, Tuple
 
 from .. import absint as AI
 from .. import astutil as A
+from .. import norm as N
 from .. import cfg as C
 from ..core import Ctx
 
@@ -154,10 +155,10 @@ def rule_window_tiling(ctx: Ctx) -> None:
         if isinstance(s.target, ast.Name) and s.target.id == "end" and isinstance(s.node, ast.Assign):
             v = s.node.value
             if isinstance(v, ast.BinOp) and isinstance(v.op, ast.Add) and isinstance(v.left, ast.Name) and v.left.id == "begin":
-                end_def = (_affine(v.right), s.stmt)
+                end_def = (_affine(N.expand(main, v.right)), s.stmt)
         if isinstance(s.node, ast.AugAssign) and isinstance(s.target, ast.Name) and s.target.id in ("begin", "end") \
                 and isinstance(s.node.op, ast.Add):
-            af = _affine(s.node.value)
+            af = _affine(N.expand(main, s.node.value))
             ctx.require(af is not None, f"C19.2: step of '{s.target.id}' is not a timedelta constructor the affine domain models")
             incs[s.target.id] = af
     ctx.require(end_def is not None and end_def[0] is not None, "C19.2: 'end = begin + timedelta(...)' not found in main "
@@ -231,17 +232,36 @@ def rule_window_tiling(ctx: Ctx) -> None:
     ctx.check(names == ["open", "high", "low", "close", "volume"], "C19.2", "aggregates feed the Bar parameter of the same name",
               flush, bars[0], "open, high, low, close, volume", f"Bar built from {names}", key_text="aggregate mapping")
     # aggregates: open first, high max, low min, close last, volume sum
-    src = {}
-    for s in A.stores(flush):
-        if isinstance(s.target, ast.Name) and s.target.id in ("open", "high", "low", "close", "volume") \
-                and any(isinstance(a_, ast.For) for a_ in A.ancestors(s.stmt)):
-            src[s.target.id] = ast.unparse(s.node.value if not isinstance(s.node, ast.AugAssign) else s.node)
-    want = {"open": lambda t: "if not open else open" in t and t.startswith("price"),
-            "high": lambda t: "max(high, price)" in t, "low": lambda t: "min(low, price)" in t,
-            "close": lambda t: t == "price", "volume": lambda t: t.replace(" ", "") == "volume+=amount"}
-    for k, f in want.items():
-        ctx.check(k in src and f(src[k]), "C19.2", f"{k} aggregates the window's trades correctly", flush, flush.node,
-                  src.get(k, ""), f"{k} is computed as '{src.get(k)}'", key_text=f"aggregate {k}")
+    def update_table(name: str):
+        """(value when the aggregate is still unset (falsy), value once it is set) for the in-loop update of ``name``"""
+        falsy = truthy = None
+        for s_ in A.stores(flush):
+            if not (isinstance(s_.target, ast.Name) and s_.target.id == name and any(isinstance(a_, ast.For) for a_ in A.ancestors(s_.stmt))):
+                continue
+            if isinstance(s_.node, ast.AugAssign):
+                return ("aug", ast.unparse(s_.node).replace(" ", ""))
+        for t, pol, v in N.guarded_values(flush, name):
+            if v is None or not any(isinstance(a_, ast.For) for a_ in A.ancestors(v)):
+                continue
+            tt = N.canon(t) if t is not None else None
+            vv = N.canon(v).replace(" ", "")
+            if tt is None:
+                falsy = truthy = vv
+            elif tt == f"not {name}":
+                falsy, truthy = (vv, truthy) if pol else (falsy, vv)
+            elif tt == name:
+                falsy, truthy = (falsy, vv) if pol else (vv, truthy)
+            else:
+                return ("?", tt)
+        return (falsy if falsy is not None else name, truthy if truthy is not None else name)
+    want = {"open": [("price", "open")], "high": [("price", "max(high,price)"), ("price", "max(price,high)")],
+            "low": [("price", "min(low,price)"), ("price", "min(price,low)")], "close": [("price", "price")],
+            "volume": [("aug", "volume+=amount")]}
+    for k, accepted in want.items():
+        got = update_table(k)
+        ctx.check(got in accepted, "C19.2", f"{k} aggregates the window's trades correctly", flush, flush.node,
+                  f"(first trade, later trades) -> {got}", f"{k} is updated as (first trade, later trades) -> {got}, expected {accepted[0]}",
+                  key_text=f"aggregate {k}")
     # in-order guard of push_trade
     pt = ctx.func(f"{cls}.push_trade")
     cmp_ = [n for n in C.walk_shallow(pt.node) if isinstance(n, ast.Compare) and isinstance(n.ops[0], ast.Lt)
@@ -355,9 +375,41 @@ def rule_row_mapping(ctx: Ctx) -> None:
                   "period_to_step", key_text=f"{mod} period table")
     # sorting
     es = ctx.func("basana.core.event_sources.csv.EventSource.initialize")
-    iff = [n for n in C.walk_shallow(es.node) if isinstance(n, ast.If)]
-    ok = bool(iff) and A.dotted(iff[0].test) == "self._sort" and "load_sort_and_yield" in ast.unparse(iff[0].body[0]) \
-        and "load_and_yield" in ast.unparse(iff[0].orelse[0]) and "load_sort_and_yield" not in ast.unparse(iff[0].orelse[0])
+    sel: Dict[Any, str] = {}
+
+    def pol_of(test: ast.AST, pol: bool):
+        t = N.canon(N.expand(es, test))
+        return pol if t == "self._sort" else ((not pol) if t in ("not self._sort", "self._sort is False") else "?")
+
+    def loader_of(e: ast.AST, pol) -> None:
+        if isinstance(e, ast.IfExp):
+            for br, p2 in ((e.body, True), (e.orelse, False)):
+                loader_of(br, pol_of(e.test, p2) if pol is None else "?")
+            return
+        f = e.func if isinstance(e, ast.Call) else e
+        if isinstance(f, ast.IfExp):
+            loader_of(f, pol)
+            return
+        if isinstance(f, ast.Name) and f.id in ("load_sort_and_yield", "load_and_yield"):
+            sel[pol] = f.id if sel.get(pol, f.id) == f.id else "?"
+        elif isinstance(f, ast.Name):
+            for t, p2, v in N.guarded_values(es, f.id):
+                if v is None:
+                    sel["?"] = "?"
+                elif t is None:
+                    loader_of(v, pol)
+                else:
+                    loader_of(v, pol_of(t, p2) if pol is None else "?")
+        else:
+            sel["?"] = N.canon(f)
+    for s_ in A.stores(es):
+        if A.dotted(s_.target) == "self._row_it" and isinstance(s_.node, (ast.Assign, ast.AnnAssign)):
+            gi = [a for a in A.ancestors(s_.stmt) if isinstance(a, ast.If)]
+            pol = None
+            if gi:
+                pol = pol_of(gi[0].test, any(A.is_within(s_.stmt, b) for b in gi[0].body))
+            loader_of(s_.node.value, pol)
+    ok = sel == {True: "load_sort_and_yield", False: "load_and_yield"}
     ctx.check(ok, "C19.3", "sorting loader selected iff sort was requested", es, es.node, "if self._sort: load_sort_and_yield",
               "sort flag does not select the sorting loader", key_text="sort selects")
     ls = ctx.func("basana.core.event_sources.csv.load_sort_and_yield")
